@@ -57,20 +57,88 @@ pub struct RedoError { _p: () }
 pub trait Msg {}
 impl Msg for &str {}
 impl Msg for String {}
+/// one link of an error's `source()` chain: a RedoError (with its kind) or an error of another type
+pub enum ErrNode { Redo(RedoErrorKind), Foreign }
+/// the exit code of the first ImmediateExit in a chain (builder::immediate_exit_code is proved to compute it, unit record)
+pub open spec fn first_immediate(c: Seq<ErrNode>) -> Option<i32>
+    decreases c.len()
+{
+    if c.len() == 0 { None } else {
+        match c[0] { ErrNode::Redo(RedoErrorKind::ImmediateExit(code)) => Some(code), _ => first_immediate(c.skip(1)) }
+    }
+}
+/// the first kind other than Generic in a chain (RedoErrorKind::of is proved to compute it, unit gluebins)
+pub open spec fn first_nongeneric(c: Seq<ErrNode>) -> RedoErrorKind
+    decreases c.len()
+{
+    if c.len() == 0 { RedoErrorKind::Generic } else {
+        match c[0] {
+            ErrNode::Redo(k) => if k != RedoErrorKind::Generic { k } else { first_nongeneric(c.skip(1)) },
+            ErrNode::Foreign => first_nongeneric(c.skip(1)),
+        }
+    }
+}
+/// `&(dyn std::error::Error + 'static)`  TRUSTED (std::error::Error: source(), downcast_ref)
+#[verifier::external_body]
+pub struct DynError { _p: () }
+impl DynError {
+    /// this error followed by its source() chain; never empty
+    pub uninterp spec fn chain(&self) -> Seq<ErrNode>;
+    /// `err.downcast_ref::<RedoError>()`
+    #[verifier::external_body]
+    pub fn downcast_redo(&self) -> (r: Option<&RedoError>)
+        ensures
+            self.chain().len() >= 1,
+            self.chain()[0] matches ErrNode::Redo(k) ==> (r matches Some(e) && e.kind() == k && e.chain() == self.chain()),
+            self.chain()[0] is Foreign ==> r is None,
+    { unimplemented!() }
+    /// `err.source()`
+    #[verifier::external_body]
+    pub fn source(&self) -> (r: Option<&DynError>)
+        ensures
+            self.chain().len() >= 1,
+            self.chain().len() == 1 ==> r is None,
+            self.chain().len() > 1 ==> (r matches Some(s) && s.chain() == self.chain().skip(1)),
+    { unimplemented!() }
+}
 impl RedoError {
     pub uninterp spec fn kind(&self) -> RedoErrorKind;
+    /// the error itself followed by its source() chain
+    pub uninterp spec fn chain(&self) -> Seq<ErrNode>;
+    /// `e.kind()` in executable code
     #[verifier::external_body]
-    pub fn opaque_error<E>(e: E) -> RedoError { unimplemented!() }
+    pub fn kind_ref(&self) -> (r: &RedoErrorKind) ensures *r == self.kind() { unimplemented!() }
+    /// the unsizing coercion `&RedoError` -> `&dyn Error`; the chain of a RedoError starts with itself
     #[verifier::external_body]
-    pub fn new<S: Msg>(msg: S) -> (r: RedoError) ensures r.kind() == RedoErrorKind::Generic { unimplemented!() }
+    pub fn as_dyn(&self) -> (r: &DynError)
+        ensures r.chain() == self.chain(), self.chain().len() >= 1, self.chain()[0] == ErrNode::Redo(self.kind()),
+    { unimplemented!() }
+    /// opaque_error keeps the message only: "The error is not presented on the source chain"
     #[verifier::external_body]
-    pub fn immediate_exit<S: Msg>(code: i32, msg: S) -> (r: RedoError) ensures r.kind() == RedoErrorKind::ImmediateExit(code) { unimplemented!() }
+    pub fn opaque_error<E>(e: E) -> (r: RedoError) ensures r.kind() == RedoErrorKind::Generic, r.chain() == seq![ErrNode::Redo(RedoErrorKind::Generic)] { unimplemented!() }
     #[verifier::external_body]
-    pub fn from_kind(k: RedoErrorKind) -> (r: RedoError) ensures r.kind() == k { unimplemented!() }
+    pub fn new<S: Msg>(msg: S) -> (r: RedoError) ensures r.kind() == RedoErrorKind::Generic, r.chain() == seq![ErrNode::Redo(RedoErrorKind::Generic)] { unimplemented!() }
+    #[verifier::external_body]
+    pub fn immediate_exit<S: Msg>(code: i32, msg: S) -> (r: RedoError)
+        ensures r.kind() == RedoErrorKind::ImmediateExit(code), r.chain() == seq![ErrNode::Redo(RedoErrorKind::ImmediateExit(code))],
+    { unimplemented!() }
+    #[verifier::external_body]
+    pub fn from_kind(k: RedoErrorKind) -> (r: RedoError) ensures r.kind() == k, r.chain() == seq![ErrNode::Redo(k)] { unimplemented!() }
+    /// `RedoError::wrap(cause, msg)` for a RedoError cause: a Generic error whose source() is the cause (error.rs, pinned in unit sched)
+    #[verifier::external_body]
+    pub fn wrap<S: Msg>(cause: RedoError, msg: S) -> (r: RedoError)
+        ensures r.kind() == RedoErrorKind::Generic, r.chain() == seq![ErrNode::Redo(RedoErrorKind::Generic)] + cause.chain(),
+    { unimplemented!() }
 }
 impl From<RedoErrorKind> for RedoError {
     #[verifier::external_body]
-    fn from(k: RedoErrorKind) -> (r: RedoError) ensures r.kind() == k { unimplemented!() }
+    fn from(k: RedoErrorKind) -> (r: RedoError) ensures r.kind() == k, r.chain() == seq![ErrNode::Redo(k)] { unimplemented!() }
+}
+/// R-closure: `.map(|e| e.kind())` on the result of downcast_ref
+pub fn opt_kind<'a>(o: Option<&'a RedoError>) -> (r: Option<&'a RedoErrorKind>)
+    ensures o is None ==> r is None, o matches Some(e) ==> (r matches Some(k) && *k == e.kind()),
+{
+    match o { None => None, Some(e) => Some(e.kind_ref()) }
 }
 #[verifier::external]
 impl core::fmt::Debug for RedoError { fn fmt(&self, f: &mut core::fmt::Formatter<'_>) -> core::fmt::Result { Ok(()) } }
